@@ -10,7 +10,9 @@
 #include "erasurecode_backend.h"
 #include "erasurecode_helpers.h"
 #include "erasurecode_helpers_ext.h"
+#ifndef PAY
 #define PAY 4
+#endif
 struct frag { fragment_header_t h; uint8_t pay[PAY]; } __attribute__((packed));
 
 static void swap4(uint8_t *d, const uint8_t *s) { d[0] = s[3]; d[1] = s[2]; d[2] = s[1]; d[3] = s[0]; }
